@@ -80,3 +80,22 @@ Definition ex_pl_cfg : cfg :=
     (fun k => match k with 0 => [0] | 1 => [1] | _ => [] end).
 Definition ex_pl_opts : opts := mkOpts 0%Z [] false true true 50 [0; 1].
 Definition ex_pl_final : pstate := fst (simulate ex_pl_cfg ex_pl_opts (blank ex_pl_cfg)).
+
+(* two tasks joined by a finish-to-finish link, each with a worker of its own
+   (worker w is skilled for task w only); task 1 has less work than task 0 and
+   waits, holding its worker, until task 0 is done (C05) *)
+Definition ex_ff_cfg : cfg :=
+  mkCfg 2 2 0 0 1 0
+    (fun t => t) (fun t => match t with 0 => 3%Q | _ => 1%Q end)
+    (fun _ => 0%Q) (fun _ => 1%Q) (fun _ => false) (fun _ => false) (fun _ => None)
+    (fun t => match t with 1 => [(0, FF)] | _ => [] end) (fun t => match t with 0 => [(1, FF)] | _ => [] end)
+    (fun _ => [0]) (fun _ => []) (fun _ => None) (fun _ => None)
+    (fun _ => (-1)%Z) (fun _ => 0%Z) (fun _ => 0%Z) (fun _ => (-1)%Z)
+    (fun _ => 0) (fun w => [(w, 1%Q)]) (fun _ => [])
+    (fun _ => 1%Q) (fun _ => false)
+    (fun _ => []) (fun _ => None)
+    (fun g => match g with 0 => [0; 1] | _ => [] end)
+    (fun _ => 0) (fun _ => 0) (fun _ => []) (fun _ => 0%Q) (fun _ => false) (fun _ => [])
+    (fun _ => []) (fun _ => 0%Q) (fun _ => [])
+    (fun _ => 0%Q) (fun _ => []) (fun _ => []) (fun _ => []).
+Definition ex_ff_opts : opts := mkOpts 0%Z [] false true true 50 [].
